@@ -48,3 +48,52 @@ Example C05_nonvacuous :
   check_fused_binary_flip_op 3 A B None None None op_xor = Ok None.
 Proof. vm_compute. repeat split; try reflexivity. eexists; split; reflexivity. Qed.
 Print Assumptions C05_nonvacuous.
+
+(* ---- the efficient versions (Model/ApplyFast2.v: PositiveMap operands / memo tables / visited set, reversed store with a
+   size counter) that the correspondence driver runs on operands above 300 nodes compute exactly the outcomes of the
+   reference definitions, for ALL inputs (no hypotheses): every statement above holds of them verbatim ---- *)
+From BddVerif Require Import Model.ApplyFast Model.ApplyFast2 Proofs.ApplyFast Proofs.ApplyFast2.
+
+Theorem C05_limit_fast_engine_refines : forall A B fa fb fo op limit,
+  apply2_limit_fast A B fa fb fo op limit = apply2_limit A B fa fb fo op limit.
+Proof. exact apply2_limit_fast_eq. Qed.
+Print Assumptions C05_limit_fast_engine_refines.
+
+Theorem C05_limit_fast_refines : forall limit A B fa fb fo op,
+  fused_binary_flip_op_with_limit_fast limit A B fa fb fo op = fused_binary_flip_op_with_limit limit A B fa fb fo op.
+Proof. exact fused_binary_flip_op_with_limit_fast_eq. Qed.
+Print Assumptions C05_limit_fast_refines.
+
+Theorem C05_dry_run_fast_engine_refines : forall A B fa fb fo op limit,
+  dry_run_fast A B fa fb fo op limit = dry_run A B fa fb fo op limit.
+Proof. exact dry_run_fast_eq. Qed.
+Print Assumptions C05_dry_run_fast_engine_refines.
+
+Theorem C05_dry_run_fast_refines : forall limit A B fa fb fo op,
+  check_fused_binary_flip_op_fast limit A B fa fb fo op = check_fused_binary_flip_op limit A B fa fb fo op.
+Proof. exact check_fused_binary_flip_op_fast_eq. Qed.
+Print Assumptions C05_dry_run_fast_refines.
+
+Theorem C05_limit_fast_exact : forall A B fa fb fo op limit,
+  wf A -> wf B -> nvars A = nvars B -> flips_ok (nvars A) fa fb fo = true -> total2 op -> consistent2 op ->
+  exists r, fused_binary_flip_op A B fa fb fo op = Ok r /\
+    fused_binary_flip_op_with_limit_fast limit A B fa fb fo op = Ok (if size r <=? limit then Some r else None).
+Proof. exact limit_fast_exact. Qed.
+Print Assumptions C05_limit_fast_exact.
+
+Theorem C05_dry_run_fast_exact : forall A B fa fb fo op,
+  wf A -> wf B -> nvars A = nvars B -> flips_ok (nvars A) fa fb fo = true -> total2 op -> consistent2 op ->
+  exists r c, fused_binary_flip_op A B fa fb fo op = Ok r /\ size r - 2 <= c /\
+    forall limit, check_fused_binary_flip_op_fast limit A B fa fb fo op = Ok (if limit <? c then None else Some (negb (is_false r), c)).
+Proof. exact check_fast_exact. Qed.
+Print Assumptions C05_dry_run_fast_exact.
+
+Example C05_fast_nonvacuous :
+  let A := [mkNode 3 0 0; mkNode 3 1 1; mkNode 1 0 1; mkNode 0 0 2] in
+  let B := [mkNode 3 0 0; mkNode 3 1 1; mkNode 2 1 0] in
+  fused_binary_flip_op_with_limit_fast 4 A B None None None op_xor = Ok None /\
+  (exists r, fused_binary_flip_op_with_limit_fast 6 A B None None None op_xor = Ok (Some r) /\ size r = 6) /\
+  check_fused_binary_flip_op_fast 100 A B None None None op_xor = Ok (Some (true, 4)) /\
+  check_fused_binary_flip_op_fast 3 A B None None None op_xor = Ok None.
+Proof. exact limit_fast_example. Qed.
+Print Assumptions C05_fast_nonvacuous.
